@@ -91,7 +91,7 @@ class C05(core.Check):
                  lambda: values.abs_([mk(x)]), lambda: values.sgn_([mk(x)]),
                  lambda: values.sub(mk(x), mk(y)), lambda: values.div(mk(x), mk(y))]
         out = []
-        with core.time_limit(20):
+        with core.time_limit(5):
             with M.hard_errors():
                 for f in calls:
                     out += M.run(f)
